@@ -97,7 +97,9 @@ class FakeTransport(asyncio.Transport):
     def feed(self, data: bytes):
         """Deliver data as asyncio would; an exception escaping data_received is
         a fatal error: connection_lost(exc), transport closed."""
-        if self.lost or self.closing:
+        # Between transport.close() and connection_lost both real stacks may still deliver data (further TLS records
+        # of the same TCP segment on the PyOpenSSL pump, FLUSHING state of asyncio's SSL transport)
+        if self.lost:
             return False
         try:
             self.protocol.data_received(data)
